@@ -695,7 +695,7 @@ impl Engine for Once {
             }
         }
         // ---- random: up to 4 x 3 x 3 x 3, three executors
-        let n = if quick { 30_000 } else { 400_000 };
+        let n = if quick { 40_000 } else { 1_500_000 };
         for i in 0..n {
             let nt = rng.range(2, 4) as usize;
             let nk = rng.range(1, 3);
